@@ -181,7 +181,54 @@ func c05sessionCase(c *runner.Ctx, i int) {
 				return
 			}
 			switch req.Header.Op {
+			case cqlref.OpQuery, cqlref.OpExecute:
+				stmt := req.Statement
+				if req.Header.Op == cqlref.OpExecute {
+					stmt = strings.TrimPrefix(string(req.PreparedID), "P:")
+				}
+				if !strings.Contains(stmt, "shifting pages") {
+					conn.ReplyVoid(req)
+					return
+				}
+				// a result whose pages do not describe the same columns (the table was altered between two page
+				// requests, or the peer is simply inconsistent): page k of "shifting pages a,b,c" has a / b / c columns
+				var widths []int
+				for _, f := range strings.Split(strings.Fields(stmt[strings.Index(stmt, "shifting pages")+len("shifting pages"):])[0], ",") {
+					var w int
+					fmt.Sscan(f, &w)
+					widths = append(widths, w)
+				}
+				page := 0
+				if req.Params.HasPagingState && len(req.Params.PagingState) == 1 {
+					page = int(req.Params.PagingState[0])
+				}
+				if page >= len(widths) {
+					conn.ReplyVoid(req)
+					return
+				}
+				meta := cqlref.Metadata{Global: true, ColCount: widths[page]}
+				for k := 0; k < widths[page]; k++ {
+					meta.Columns = append(meta.Columns, cqlref.Column{Keyspace: "ks", Table: "t", Name: fmt.Sprintf("c%d", k), Type: &cqlref.Type{ID: cqlref.TVarchar}})
+				}
+				if page < len(widths)-1 {
+					meta.MorePages = true
+					meta.PagingState = []byte{byte(page + 1)}
+				}
+				var rows [][][]byte
+				for rr := 0; rr < 3; rr++ {
+					var row [][]byte
+					for k := 0; k < widths[page]; k++ {
+						row = append(row, []byte(fmt.Sprintf("p%dr%dc%d", page, rr, k)))
+					}
+					rows = append(rows, row)
+				}
+				conn.ReplyRows(req, &cqlref.RowsSpec{Meta: meta, Rows: rows})
 			case cqlref.OpPrepare:
+				if strings.Contains(req.Statement, "shifting pages") {
+					conn.Reply(req, cqlref.OpResult, nil, cqlref.BodyPrepared(conn.Version, &cqlref.PreparedSpec{ID: []byte("P:" + req.Statement),
+						Result: cqlref.Metadata{Global: true, ColCount: 1, Columns: []cqlref.Column{{Keyspace: "ks", Table: "t", Name: "c0", Type: &cqlref.Type{ID: cqlref.TVarchar}}}}}))
+					return
+				}
 				ps := &cqlref.PreparedSpec{ID: []byte("P:" + req.Statement),
 					Bind:   cqlref.Metadata{Global: true, ColCount: 1, Columns: []cqlref.Column{{Keyspace: "ks", Table: "t", Name: "k", Type: &cqlref.Type{ID: cqlref.TVarchar}}}},
 					Result: cqlref.Metadata{Global: true, ColCount: 1, Columns: []cqlref.Column{{Keyspace: "ks", Table: "t", Name: "v", Type: &cqlref.Type{ID: cqlref.TInt}}}}}
@@ -366,6 +413,33 @@ func c05sessionCase(c *runner.Ctx, i int) {
 				}); pan != nil {
 					report("ExecuteBatch", pan)
 				}
+			}
+		}
+		if version >= 2 && r.Intn(2) == 0 {
+			// a paged result whose later pages describe more (or fewer) columns than the first one, read through every
+			// consumer with the destinations made for the first page: an error is fine, a panic in the caller is not
+			atomic.StoreInt32(&sc.left, 0)
+			widths := fmt.Sprintf("%d,%d,%d", 1+r.Intn(3), 1+r.Intn(4), 1+r.Intn(4))
+			c.Add("results_with_pages_of_different_width", 1)
+			for how := 0; how < 4; how++ {
+				var q *gocql.Query
+				if r.Intn(2) == 0 {
+					q = sess.Query(fmt.Sprintf("LIST shifting pages %s /* %d */", widths, i))
+				} else {
+					q = sess.Query(fmt.Sprintf("SELECT * FROM ks.t /* shifting pages %s /* %d */", widths, i)).NoSkipMetadata()
+				}
+				q.PageSize(3)
+				var n int
+				if pan := c05call(c, "Iter.Scan", func() {
+					var p interface{}
+					if n, p = c05drain(q.Iter(), how); p != nil {
+						panic(fmt.Sprintf("consumer %d after %d rows: %v", how, n, p))
+					}
+				}); pan != nil {
+					key += " [pages of widths " + widths + "]"
+					report("Iter:pages-of-different-width", pan)
+				}
+				c.Add("rows_read_from_shifting_pages", int64(n))
 			}
 		}
 		time.Sleep(time.Duration(r.Intn(30)) * time.Millisecond)
